@@ -93,6 +93,15 @@ def seed_of(node):
     return v
 
 
+def ipar(node, v):
+    """an integer parameter of an operator; a node that ends with the marker 'np64' gets it as numpy.int64 (sizes
+    computed with numpy are int-like but not `int`: `x is True`, `type(x) is int` and friends behave differently)"""
+    if node[-1] == 'np64':
+        import numpy
+        return numpy.int64(v)
+    return v
+
+
 def build(ast, ctx, mux=True):
     """list of AST nodes -> list of rxsci operators (mux=False: same operators for a plain Observable)"""
     ops = []
@@ -112,15 +121,15 @@ def build(ast, ctx, mux=True):
         elif k == 'last':
             ops.append(rs.ops.last())
         elif k == 'take':
-            ops.append(rs.ops.take(n[1]))
+            ops.append(rs.ops.take(ipar(n, n[1])))
         elif k == 'distinct':
             ops.append(rs.ops.distinct(py_fn(n[1]) if n[1] else None))
         elif k == 'lag':
-            ops.append(rs.data.lag(n[1]))
+            ops.append(rs.data.lag(ipar(n, n[1])))
         elif k == 'pad_start':
-            ops.append(rs.data.pad_start(n[1], dec(n[2])))
+            ops.append(rs.data.pad_start(ipar(n, n[1]), dec(n[2])))
         elif k == 'pad_end':
-            ops.append(rs.data.pad_end(n[1], dec(n[2])))
+            ops.append(rs.data.pad_end(ipar(n, n[1]), dec(n[2])))
         elif k == 'start_with':
             ops.append(rs.ops.start_with([dec(v) for v in n[1]]))
         elif k == 'assert':
@@ -173,7 +182,7 @@ def build(ast, ctx, mux=True):
             ops.append({'min': rs.math.dist.min, 'max': rs.math.dist.max, 'mean': rs.math.dist.mean,
                         'stddev': rs.math.dist.stddev}[n[2]]() if n[2] != 'quantile' else rs.math.dist.quantile(n[3]))
         elif k == 'batch':
-            ops.append(rs.data.batch(n[1]))
+            ops.append(rs.data.batch(ipar(n, n[1])))
         elif k == 'duc':
             ops.append(rs.ops.distinct_until_changed(py_fn(n[1]) if n[1] else None))
         elif k == 'identity':
